@@ -4,6 +4,7 @@ package main
 
 import (
 	"fmt"
+	"go/token"
 	"go/types"
 	"sort"
 	"strings"
@@ -57,7 +58,28 @@ func runGuard(c *Ctx, cfg guardCfg) (nFields, nPairs int) {
 	}
 	sort.Slice(fns, func(i, j int) bool { return fns[i].String() < fns[j].String() })
 	for _, fn := range fns {
-		for _, a := range fieldAccessesShallow(fn) {
+		accs := fieldAccessesShallow(fn)
+		// a copy of a whole shared object (`v := *p`, a call of a value-receiver method through a pointer)
+		// reads every one of its fields at that point
+		allInstrsShallow(fn, func(in ssa.Instruction) {
+			u, ok := in.(*ssa.UnOp)
+			if !ok || u.Op != token.MUL {
+				return
+			}
+			nt, isN := u.Type().(*types.Named)
+			if !isN || nt.Obj().Pkg() == nil {
+				return
+			}
+			tname := nt.Obj().Pkg().Path() + "." + nt.Obj().Name()
+			st, isS := nt.Underlying().(*types.Struct)
+			if !isS || !cfg.sharedTypes[tname] {
+				return
+			}
+			for i := 0; i < st.NumFields(); i++ {
+				accs = append(accs, fieldAccess{In: in, Type: tname, Field: st.Field(i).Name(), Kind: "load", Base: u.X})
+			}
+		})
+		for _, a := range accs {
 			if !cfg.sharedTypes[a.Type] {
 				continue
 			}
@@ -157,11 +179,13 @@ func checkC14(c *Ctx) Meta {
 	c.Note("fields stored after construction: %d; store/access pairs examined: %d", nF, nP)
 	// lock identity: the per-instance argument above is only valid if a lock-carrying object is never
 	// copied by value (the copy gets its own mutex but shares the maps and pointers)
-	c.Rule("C14-COPY", "objects of the lock-carrying shared types (KeystoreManagerForPoC, AddrManager) are never copied by value anywhere in the repository", 1)
+	c.Rule("C14-COPY", "objects of the lock-carrying shared types (KeystoreManagerForPoC, AddrManager) and managed addresses (whose private key is written under the manager lock) are never copied by value anywhere in the repository", 1)
 	c.Rule("C14-PAIR", "every lock taken explicitly in the wallet is released on every path (deferred, or an Unlock before each return); manager methods never call other lock-taking manager methods (no stale snapshots between two critical sections, no self-deadlock)", 30)
 	checkLockPairing(c, "C14-PAIR", []string{pkgKeystore})
 	checkNoNestedPublicCalls(c, "C14-PAIR")
-	lockCarrying := map[string]bool{tKMC: true, tAddrMgr: true}
+	// …nor a managed address: its private key is written under its manager's lock at every lock/unlock,
+	// and a copy (a value-receiver accessor, `v := *ma`) reads that field with no lock at all
+	lockCarrying := map[string]bool{tKMC: true, tAddrMgr: true, tManagedAddr: true}
 	nCopy := 0
 	var cfns []*ssa.Function
 	for fn := range c.AllFuncs {
@@ -181,7 +205,7 @@ func checkC14(c *Ctx) Meta {
 			switch in.(type) {
 			case *ssa.UnOp, *ssa.Call, *ssa.Phi, *ssa.Extract, *ssa.Field, *ssa.Lookup, *ssa.Index, *ssa.TypeAssert:
 				nCopy++
-				c.Bad("C14-COPY", FuncName(fn)+":copies:"+shortType(typeFullName(n)), c.Pos(in.Pos()), "a "+shortType(typeFullName(n))+" is copied by value: the copy carries its own mutex while sharing the address map and key objects with the original, so holders of the copy and of the original exclude nobody")
+				c.Bad("C14-COPY", FuncName(fn)+":copies:"+shortType(typeFullName(n)), c.Pos(in.Pos()), "a "+shortType(typeFullName(n))+" is copied by value: a manager's copy carries its own mutex while sharing the address map and key objects with the original (holders of the copy and of the original exclude nobody); copying a managed address (a value-receiver accessor, `v := *ma`) reads its private-key field with no lock while lock/unlock write it")
 			}
 		})
 	}
